@@ -45,25 +45,25 @@ def tag_of(levelchar):
     return join("", ["h", levelchar])
 
 
-def make_seq(eng, k, places, offset_max=0, levels="123456"):
+def make_seq(eng, k, places, offset_max=0, levels="123456", fm_title=False):
     setup()
     lv = [new_str(eng, "lv%d" % i, 1, alphabet=levels) for i in range(k)]
     pl = [new_int(eng, "pl%d" % i, 0, len(places) - 1) for i in range(k)]
     off = new_int(eng, "offset", 0, offset_max) if offset_max else 0
-    eng.witness_fn = lambda m: {"levels": [int(eng.eval_model(m, x)) for x in lv], "places": [places[eng.eval_model(m, p)] for p in pl], "offset": eng.eval_model(m, off) if offset_max else 0}
+    eng.witness_fn = lambda m: {"levels": [int(eng.eval_model(m, x)) for x in lv], "places": [places[eng.eval_model(m, p)] for p in pl], "offset": eng.eval_model(m, off) if offset_max else 0, "fm_title": fm_title}
 
     def body():
         ps = [places[eng.concretize_int(p)] for p in pl]
         o = eng.concretize_int(off) if offset_max else 0
-        ctx = CR.new_context()
+        ctx = CR.new_context(config={"title_to_header": True} if fm_title else None)
         try:
-            run_program(CR.R, ctx, [lift(x) for x in lv], ps, o)
+            run_program(CR.R, ctx, [lift(x) for x in lv], ps, o, fm_title)
         except Exception as exc:  # noqa
             import traceback
 
             eng.fail("render-raises", "%s: %s @ %s" % (type(exc).__name__, exc, traceback.format_tb(exc.__traceback__)[-1][:200]))
         levels = [int(eng.concretize(lift(x))) for x in lv]
-        err = check_structure(ctx, levels, ps, o)
+        err = check_structure(ctx, levels, ps, o, fm_title)
         if err:
             eng.fail(err[0], err[1])
         eng.passed(8)
@@ -74,13 +74,21 @@ def make_seq(eng, k, places, offset_max=0, levels="123456"):
     return body
 
 
-def run_program(R, ctx, levelchars, places, offset):
+def run_program(R, ctx, levelchars, places, offset, fm_title=False):
     """Render the program on ctx.renderer.  Line numbers: item i starts at line 10*i."""
     from docutils import nodes
     from docutils.statemachine import StringList
 
     r = ctx.renderer
     mocking = R["mocking"] if "mocking" in R else None
+    if fm_title:
+        # front matter with a title: title_to_header renders '# <title>' through a nested render before everything else
+        from markdown_it.token import Token
+
+        real_parse0 = r.md.parse
+        r.md.parse = lambda text, env: CR.heading("h1", 0, "T0") if text.startswith("# T0") else real_parse0(text, env)
+        r._render_tokens([Token("front_matter", "", 0, content="title: T0", map=[0, 2], markup="---", block=True, hidden=True)])
+        r.md.parse = real_parse0
     if offset:
         # an include with heading-offset: everything is rendered through one nested_render_text at top level
         toks = []
@@ -128,7 +136,7 @@ def item_tokens(i, lc, p):
     raise ValueError(p)
 
 
-def check_structure(ctx, levels, places, offset):
+def check_structure(ctx, levels, places, offset, fm_title=False):
     """Compare the produced tree with the stack discipline.  Returns None or (label, detail)."""
     from docutils import nodes
 
@@ -140,6 +148,12 @@ def check_structure(ctx, levels, places, offset):
     exp_warn = 0
     order = []
     cur = "doc"  # name of the current outer section (where containers are appended)
+    if fm_title:
+        # the title heading opens the first level-1 section
+        stack.append((1, "T0"))
+        exp_parent["T0"] = "doc"
+        order.append("T0")
+        cur = "T0"
     for i, (L, p) in enumerate(zip(levels, places)):
         name = "h%d" % i
         if p in ("top", "top+p", "top+note"):
@@ -249,6 +263,10 @@ def families(tier, seed):
                         args=dict(k=k, places=["top", "nested-topic", "nested-sidebar", "nested-note"] + ([] if q else ["nested-figure"]), levels="1234" if q else "123456"), nontrivial="structure", max_forks=200000, required=(k <= 3)))
         F.append(Family("offset+body/K%d" % k, make_seq, "%d headings inside an include with heading_offset 1..2, each optionally followed by a {note} directive (nested render with offset 0 inside the offset render)" % k,
                         args=dict(k=k, places=["top", "top+note"], offset_max=2, levels="1234" if q else "123456"), nontrivial="structure", max_forks=200000, required=(k <= 3)))
+    F.append(Family("offset+containers/K3", make_seq, "3 headings inside an include with heading_offset 1..2, each at top level, in a block quote or in a list item: rubrics record level + offset", args=dict(k=3, places=["top", "quote", "item"], offset_max=2,
+                    levels="1234" if q else "123456"), nontrivial="structure", max_forks=200000))
+    F.append(Family("frontmatter-title/K3", make_seq, "front matter 'title:' rendered as a level-1 heading (title_to_header) followed by 3 headings at top level or in a quote", args=dict(k=3, places=["top", "quote"], levels="1234", fm_title=True),
+                    nontrivial="structure", max_forks=200000))
     for k in ([3] if q else [3, 4]):
         F.append(Family("offset/K%d" % k, make_seq, "%d headings rendered through nested_render_text with heading_offset 1..3 (include), levels 1-6 => effective levels up to 9" % k,
                         args=dict(k=k, places=["top"], offset_max=3), nontrivial="structure", max_forks=200000))
@@ -257,12 +275,13 @@ def families(tier, seed):
 
 def replay(label, witness):
     levels, places, offset = witness["levels"], witness["places"], witness.get("offset", 0)
-    ctx = CR.new_context(real=True)
+    fm_title = witness.get("fm_title", False)
+    ctx = CR.new_context(real=True, config={"title_to_header": True} if fm_title else None)
     try:
-        run_program({}, ctx, [str(l) for l in levels], places, offset)
+        run_program({}, ctx, [str(l) for l in levels], places, offset, fm_title)
     except Exception as e:  # noqa
         return ("C05/exception:%s" % type(e).__name__, "levels %s places %s offset %s: %r" % (levels, places, offset, e))
-    err = check_structure(ctx, levels, places, offset)
+    err = check_structure(ctx, levels, places, offset, fm_title)
     if err:
         return ("C05/%s" % err[0], err[1])
     return None
